@@ -267,3 +267,68 @@ Proof.
   - destruct (tokenize rules f t) eqn:T; try discriminate. inversion H. subst.
     intros x [<-|IN]; [|eapply IH; eauto]. split; [intros k0 E; discriminate|intros E; discriminate].
 Qed.
+
+(* ---------- longest match, first rule ---------- *)
+Lemma matchb_empty w : matchb Empty w = false.
+Proof. unfold matchb. induction w as [|c t IH]; simpl; auto. Qed.
+Lemma is_empty_eq r : is_empty r = true -> r = Empty.
+Proof. destruct r; simpl; auto; discriminate. Qed.
+Lemma lm_complete : forall s r n best k, k <= length s -> matchb r (firstn k s) = true ->
+  exists m, lm r s n best = Some m /\ n + k <= m.
+Proof.
+  induction s as [|c t IH]; intros r n best k L M.
+  - simpl in L. assert (k = 0) by lia. subst. simpl in *. unfold matchb in M. simpl in M. rewrite M. exists n. split; auto. lia.
+  - destruct k as [|k'].
+    + simpl in M. unfold matchb in M. simpl in M. simpl. rewrite M.
+      destruct (is_empty (deriv c r)); [exists n; split; auto; lia|].
+      destruct (lm_best_some t (deriv c r) (S n) n) as (m & E). exists m. split; auto.
+      apply lm_mono in E; lia.
+    + simpl firstn in M. rewrite matchb_cons in M. simpl.
+      destruct (is_empty (deriv c r)) eqn:EM.
+      * apply is_empty_eq in EM. rewrite EM, matchb_empty in M. discriminate.
+      * destruct (IH (deriv c r) (S n) (if nullable r then Some n else best) k' ltac:(simpl in L; lia) M) as (m & E & G).
+        exists m. split; auto. lia.
+Qed.
+(* no longer prefix is matched by the same rule *)
+Theorem longest_maximal r s n : longest r s = Some n ->
+  forall k, k <= length s -> matchb r (firstn k s) = true -> k <= n.
+Proof.
+  unfold longest. intros H k L M. destruct (lm_complete s r 0 None k L M) as (m & E & G). rewrite E in H.
+  destruct m; [discriminate|]. inversion H. lia.
+Qed.
+Lemma longest_none r s : longest r s = None -> forall k, 1 <= k <= length s -> matchb r (firstn k s) = false.
+Proof.
+  unfold longest. intros H k L. destruct (matchb r (firstn k s)) eqn:M; auto.
+  destruct (lm_complete s r 0 None k ltac:(lia) M) as (m & E & G). rewrite E in H. destruct m; [lia|discriminate].
+Qed.
+Lemma best_rule_none : forall rules s, best_rule rules s = None -> forall r a, In (r, a) rules -> longest r s = None.
+Proof.
+  induction rules as [|[r0 a0] t IH]; intros s B r a I; [destruct I|]. simpl in B.
+  destruct (longest r0 s) eqn:L0.
+  - destruct (best_rule t s) as [[? ?]|]; [destruct (_ <=? _)|]; discriminate.
+  - destruct I as [I|I]; [inversion I; subst; exact L0|eapply IH; eauto].
+Qed.
+(* the chosen rule has the longest match; among rules with a match of that length it is the first *)
+Theorem best_rule_spec : forall rules s n a, best_rule rules s = Some (n, a) ->
+  exists pre r post, rules = pre ++ (r, a) :: post /\ longest r s = Some n /\
+    (forall r' a' m, In (r', a') pre -> longest r' s = Some m -> m < n) /\
+    (forall r' a' m, In (r', a') post -> longest r' s = Some m -> m <= n).
+Proof.
+  induction rules as [|[r a0] rest IH]; intros s n a H; simpl in H; [discriminate|].
+  destruct (longest r s) as [k|] eqn:L.
+  - destruct (best_rule rest s) as [[m b]|] eqn:B.
+    + destruct (IH _ _ _ B) as (pre & r1 & post & E & L1 & P1 & P2).
+      destruct (Nat.leb_spec m k); injection H as Hn Ha; subst n a.
+      * exists [], r, rest. split; [reflexivity|]. split; [exact L|]. split; [intros ? ? ? []|].
+        intros r' a' m' I LM. rewrite E in I. apply in_app_or in I. destruct I as [I|[I|I]].
+        -- specialize (P1 _ _ _ I LM). lia.
+        -- injection I as I1 I2. subst r' a'. rewrite L1 in LM. injection LM as LM. lia.
+        -- specialize (P2 _ _ _ I LM). lia.
+      * exists ((r, a0) :: pre), r1, post. split; [rewrite E; reflexivity|]. split; [exact L1|]. split; [|exact P2].
+        intros r' a' m' [I|I] LM; [inversion I; subst; rewrite L in LM; inversion LM; lia|eapply P1; eauto].
+    + injection H as Hn Ha. subst n a. exists [], r, rest. split; [reflexivity|]. split; [exact L|]. split; [intros ? ? ? []|].
+      intros r' a' m' I LM. rewrite (best_rule_none _ _ B _ _ I) in LM. discriminate.
+  - destruct (IH _ _ _ H) as (pre & r1 & post & E & L1 & P1 & P2).
+    exists ((r, a0) :: pre), r1, post. split; [rewrite E; reflexivity|]. split; [exact L1|]. split; [|exact P2].
+    intros r' a' m' [I|I] LM; [inversion I; subst; rewrite L in LM; discriminate|eapply P1; eauto].
+Qed.
